@@ -273,3 +273,36 @@ func VerifH_C16_URL() {
 }
 
 var _ = strings.Index
+
+// VerifH_C16_Trim: $trim collapses whitespace runs to one space and strips both ends. The regexp
+// engine cannot be encoded, so the subject strings are enumerated (every string of up to N characters
+// over {a, é, space, tab, newline, carriage return}) and run through the repository's own pattern
+// natively; what is checked is the pattern and the glue around it, not the engine.
+func VerifH_C16_Trim() {
+	n := verifParam("N", 4)
+	alphabet := []string{"a", "é", " ", "\t", "\n", "\r"}
+	l := verifChoose(n + 1)
+	s := ""
+	for i := 0; i < l; i++ {
+		s += alphabet[verifChoose(len(alphabet))]
+	}
+	got := Trim(s)
+	// reference
+	want := ""
+	pendingSpace := false
+	for i := 0; i < len(s); {
+		_, w := utf8.DecodeRuneInString(s[i:])
+		c := s[i : i+w]
+		i += w
+		if c == " " || c == "\t" || c == "\n" || c == "\r" {
+			pendingSpace = true
+			continue
+		}
+		if pendingSpace && want != "" {
+			want += " "
+		}
+		pendingSpace = false
+		want += c
+	}
+	verifAssert(got == want, "trim")
+}
